@@ -6,6 +6,11 @@ Streams (all through the implementation, the property oracles and the extracted 
               exhaustive short lines over a bracket/quote/operator alphabet + random fragment mixes
   roundtrip   generated valid markup / stylesheet abbreviations x left context x right context x
               look-ahead (incl. an auto-closed tail right of the caret) x prefix
+  prefix-roundtrip  the prefix search (get_start_offset / consume_pair / consume_list): valid abbreviations
+              directly right of a configured prefix, ARBITRARY text left of the prefix (matched / unmatched
+              brackets of every kind, quotes, tags, earlier whole / partial prefix occurrences, an earlier
+              prefixed abbreviation), abbreviations with empty pairs [] {} (), caret at the end or before an
+              auto-closed tail; exhaustive short left texts x bracket-pair shapes, then random
   is_html     is_html / consume_quoted on tag-like texts (correspondence of the tag heuristic only)
 """
 import itertools
@@ -22,6 +27,9 @@ def opts_key(o):
 
 
 # ------------------------------------------------------------------ consistency stream
+LA_TAIL_LEN = {'quick': 3, 'thorough': 4}
+
+
 def gen_consistency(ctx):
     """yields (line, pos, opts)"""
     rng = ctx.rng
@@ -44,6 +52,9 @@ def gen_consistency(ctx):
             if n <= 2:
                 for pos in U.odd_positions(line):
                     cases.append((line, pos, {'type': TYPES[k % 2], 'lookAhead': bool(k % 3)}))
+    la = U.lookahead_tail_cases(LA_TAIL_LEN['quick' if quick else 'thorough'])
+    ctx.cover('consistency:look-ahead-tail-cases', len(la))
+    cases.extend(la)
     n_rand = 4000 if quick else 60000
     for _ in range(n_rand):
         r = rng.random()
@@ -171,6 +182,42 @@ def gen_roundtrip(ctx):
         else:
             add(gw.stylesheet(), False, 3, True)
     ctx.cover('roundtrip:candidates-rejected-by-the-parser', stats['invalid'])
+    return out
+
+
+# ------------------------------------------------------------------ prefix round-trip stream
+PREFIX_RT_EXHAUSTIVE_LEN = {'quick': 2, 'thorough': 3}
+PREFIX_RT_PER_ABBR = {'quick': 4, 'thorough': 6}
+
+
+def gen_prefix_roundtrip(ctx, rt_cases):
+    """Round trip right of a configured prefix with arbitrary text left of the prefix.
+    rt_cases: the cases of gen_roundtrip (their abbreviations, already accepted by the parser, are reused)."""
+    rng = ctx.rng
+    tier = 'quick' if ctx.tier == 'quick' else 'thorough'
+    out = []
+    for a in U.PREFIX_SHAPES + U.PREFIX_SHAPES_CSS:
+        if not U.valid_abbreviation(a, a in U.PREFIX_SHAPES):
+            ctx.cover('prefix-roundtrip:GENERATOR-shape-rejected-by-the-parser')
+    for rt in U.prefix_rt_exhaustive(rng, PREFIX_RT_EXHAUSTIVE_LEN[tier]):
+        out.append((rt, False))
+    seen = {}
+    for rt, wild in rt_cases:
+        markup = U.full_opts(rt.opts)['type'] == 'markup'
+        seen.setdefault((rt.abbr, markup), wild)
+    others = [a for (a, m) in seen if m][:200] or ['a']
+    for (abbr, markup), wild in seen.items():
+        for rt in U.prefix_rt_random(rng, abbr, markup, others, PREFIX_RT_PER_ABBR[tier]):
+            out.append((rt, wild))
+    for rt, _ in out:
+        p = rt.opts['prefix']
+        for k in U.before_kind(rt.left[:len(rt.left) - len(p)], p):
+            ctx.cover('prefix-roundtrip:left-of-prefix:' + k)
+        for k in U.pair_kinds(rt.abbr):
+            ctx.cover('prefix-roundtrip:abbreviation:' + k)
+        if rt.back:
+            ctx.cover('prefix-roundtrip:caret-before-auto-closed-tail')
+        ctx.cover('prefix-roundtrip:prefix-length:%d' % min(len(p), 3))
     return out
 
 
@@ -312,11 +359,25 @@ def run(ctx):
     ctx.cov['rule'] = (
         'consistency: every line of length <= %d over the %d-character alphabet %r at every caret position (plus '
         'positions outside the line for length <= 2), for markup/stylesheet x lookAhead on/off and one prefixed variant, '
-        'then random fragment mixes; round trip: generated valid abbreviations (validity decided by the library\'s own '
+        'then every run of length <= %d over %r right of the caret after %d left texts that leave a bracket or quote open '
+        '(look-ahead tails), then random fragment mixes; round trip: generated valid abbreviations (validity decided by the library\'s own '
         'parser) x %d left contexts (start of line / whitespace / complete HTML tag / prefix) x %d right contexts x '
-        'look-ahead (incl. auto-closed tail) ; a case is non-trivial when extract returns a result (consistency) or is '
+        'look-ahead (incl. auto-closed tail), the generated abbreviations include EMPTY pairs [] [ ] {} () ; '
+        'prefix round trip (prefix search): abbreviations directly right of a configured prefix (prefix does not end in ] } '
+        'backslash, its last character is not in the abbreviation, every ] } of the abbreviation has its opener inside it '
+        '-- the hypotheses of C11_extract_roundtrip_prefix_partial) with ARBITRARY text left of the prefix: every text of '
+        'length <= %d over %r (P = the prefix, Q = its last character) x %d bracket-pair shapes (none / empty / non-empty / '
+        'nested / adjacent) x prefixes ! && x caret at the end with and without look-ahead and before EVERY auto-closed tail, '
+        'then %d random embeddings per generated abbreviation (tame and wild) with %d prefixes and left texts mixed from '
+        'code-like fragments with matched and unmatched brackets of every kind, quotes, tags, whole and partial earlier '
+        'occurrences of the prefix and an earlier prefixed abbreviation; '
+        'a case is non-trivial when extract returns a result (consistency) or is '
         'an embedded abbreviation (round trip); distinct by (line, position, options)'
-    ) % (3 if quick else 4, len(U.EX_ALPHA), ''.join(U.EX_ALPHA), len(U.LEFTS), len(U.RIGHTS))
+    ) % (3 if quick else 4, len(U.EX_ALPHA), ''.join(U.EX_ALPHA),
+         LA_TAIL_LEN['quick' if quick else 'thorough'], ''.join(U.LA_ALPHA), len(U.LA_LEFTS), len(U.LEFTS), len(U.RIGHTS),
+         PREFIX_RT_EXHAUSTIVE_LEN['quick' if quick else 'thorough'], ''.join(U.BEFORE_ALPHA),
+         len(U.PREFIX_SHAPES) + len(U.PREFIX_SHAPES_CSS), PREFIX_RT_PER_ABBR['quick' if quick else 'thorough'],
+         len(U.PREFIXES_RICH))
     model = ctx.model('extract') if ok else None
     # corpus first
     cons, rts = corpus_cases(ctx)
@@ -328,6 +389,12 @@ def run(ctx):
     cases = gen_roundtrip(ctx)
     check_roundtrip(ctx, cases, model)
     for rt, _ in cases[:3] + cases[len(cases) // 2:len(cases) // 2 + 3]:
+        ctx.sample({'line': rt.line, 'pos': rt.pos, 'opts': rt.opts,
+                    'impl': repr(U.impl_extract(rt.line, rt.pos, rt.opts))})
+    # round trip right of a prefix (the prefix search)
+    pcases = gen_prefix_roundtrip(ctx, cases)
+    check_roundtrip(ctx, pcases, model, 'prefix-roundtrip')
+    for rt, _ in pcases[len(pcases) // 3:len(pcases) // 3 + 2] + pcases[-2:]:
         ctx.sample({'line': rt.line, 'pos': rt.pos, 'opts': rt.opts,
                     'impl': repr(U.impl_extract(rt.line, rt.pos, rt.opts))})
     # consistency
@@ -342,19 +409,52 @@ def run(ctx):
     check_html(ctx, gen_html(ctx), model)
 
 
+def earlier_calls(o):
+    """Option sets of calls made BEFORE the replayed one.  The property speaks about every call, whatever
+    was called before (in the check the cases run one after the other in one process): when the replayed
+    call alone satisfies it, it is repeated after calls with the other settings of each option."""
+    f = U.full_opts(o)
+    return [{}, dict(o, lookAhead=not f['lookAhead']), dict(o, type='stylesheet' if f['type'] == 'markup' else 'markup'),
+            dict(o, prefix='' if f['prefix'] else '<')]
+
+
+def fresh_library():
+    """forget the imported library, so that the next call starts from the state of a new process"""
+    import sys
+    for m in list(sys.modules):
+        if m == 'emmet' or m.startswith('emmet.'):
+            del sys.modules[m]
+
+
+def replay_call(line, pos, o, oracle):
+    r = U.impl_extract(line, pos, o)
+    bad = oracle(r)
+    print('extract_abbreviation(%r, %r, %r) -> %r : %s' % (line, pos, o, r, bad or 'property holds'))
+    if bad:
+        return bad
+    for e in earlier_calls(o):
+        fresh_library()
+        U.impl_extract(line, pos, e)
+        r = U.impl_extract(line, pos, o)
+        bad = oracle(r)
+        if bad:
+            print('after an earlier call extract_abbreviation(%r, %r, %r): extract_abbreviation(%r, %r, %r) -> %r : %s' % (
+                line, pos, e, line, pos, o, r, bad))
+            return bad
+    return None
+
+
 def replay(ctx, obj):
     rp = obj.get('replay', {})
     if rp.get('stream') == 'roundtrip':
         rt = U.RT.from_json(rp['rt'])
-        r = U.impl_extract(rt.line, rt.pos, rt.opts)
-        bad = U.consistency_oracle(rt.line, rt.pos, rt.opts, r) or U.roundtrip_oracle(rt, r)
-        print('round trip %r in %r at %d %r -> %r : %s' % (rt.abbr, rt.line, rt.pos, rt.opts, r, bad or 'property holds'))
+        print('round trip %r in %r at %d %r' % (rt.abbr, rt.line, rt.pos, rt.opts))
+        bad = replay_call(rt.line, rt.pos, rt.opts,
+                          lambda r: U.consistency_oracle(rt.line, rt.pos, rt.opts, r) or U.roundtrip_oracle(rt, r))
         return 1 if bad else 0
     if rp.get('stream') == 'consistency' or 'line' in rp:
         line, pos, o = rp['line'], rp.get('pos'), rp.get('opts', {})
-        r = U.impl_extract(line, pos, o)
-        bad = U.consistency_oracle(line, pos, o, r)
-        print('extract_abbreviation(%r, %r, %r) -> %r : %s' % (line, pos, o, r, bad or 'property holds'))
+        bad = replay_call(line, pos, o, lambda r: U.consistency_oracle(line, pos, o, r))
         return 1 if bad else 0
     print('replay names a broken obligation, no input: %s' % rp)
     return 1
